@@ -60,7 +60,7 @@ func enumDialCells(yield func(DialCell) bool) {
 			for _, nd := range bools {
 				for _, ndc := range bools {
 					for _, ndtls := range bools {
-						for _, creds := range []string{"", "user", "user:pw"} {
+						for _, creds := range []string{"", "user", "ws:pw~ab%3F"} {
 							for _, cert := range []string{"valid", "otherhost", "untrusted"} {
 								idx++
 								if (idx-1)%n != k {
@@ -105,7 +105,7 @@ func genDialCell(t *rapid.T) DialCell {
 	if !c.ND && !c.NDC && !c.NDTLS {
 		c.NDC = true
 	}
-	c.Creds = rapid.SampledFrom([]string{"", "user", "user:pw", "u%40x:p%3Aw"}).Draw(t, "creds")
+	c.Creds = rapid.SampledFrom([]string{"", "user", "user:pw", "u%40x:p%3Aw", "ws:pw~ab%3F", "%3E%3E%3E:%3F%3F%3F", "%C3%BC%C3%B1%C3%AE:%E2%82%AC%E2%82%AC", "a:", ":b"}).Draw(t, "creds")
 	c.Cert = rapid.SampledFrom([]string{"valid", "valid", "otherhost", "untrusted"}).Draw(t, "cert")
 	n := rapid.IntRange(1, 3).Draw(t, "nhosts")
 	for i := 0; i < n; i++ {
@@ -141,6 +141,12 @@ func checkC18(c DialCell, o *Obs) error {
 		// makes the first hop; it is pointed at a loopback listener whose
 		// accepted connections are served by the same in-process peers.
 		wantFn = "default"
+	}
+	if u, pw, ok := strings.Cut(c.Creds, ":"); c.Proxy == "socks5" && ok && (u == "" || pw == "") {
+		// RFC 1929 requires non-empty user name and password; what the SOCKS5
+		// client does with an empty one is not classified by the statement
+		o.Class("socks5_empty_credential_part_unspecified")
+		return nil
 	}
 	spec := PeerSpec{ProxyKind: c.Proxy, ProxyReply: c.ProxyReply, BackendCert: c.Cert}
 	spec.ProxyTLS = c.Proxy == "https" && !c.NDTLS
